@@ -62,6 +62,15 @@ def gen_cases(tier, seed):
             fr = F.mgmt(rng, st, els, ordered=rng.random() < 0.25, privacy=rng.random() < 0.5)
             rt, buf = F.wrap(rng, fr, rng.randrange(3))
             cases.append("mgmt %d %s" % (rt, hx(buf)))
+    # elements after an EMPTY non-leading element (findings F44), a repeated SSID element shorter than the first (F47)
+    for st in F.PARSABLE:
+        for empty_num in (114, 7, 0, 221, 255):
+            rsn = F.el(48, F.rsn_body(rng, pairwise=F.rand_suites(rng, "rsn", 1), akms=F.rand_suites(rng, "rsn", 1)))
+            els = [F.el(0, b"abc"), F.el(empty_num, b""), F.el(3, [6]), rsn, F.el(3, [11])]
+            cases.append("mgmt 0 " + hx(F.mgmt(rng, st, els, privacy=True)))
+            cases.append("mgmt 0 " + hx(F.mgmt(rng, st, [F.el(empty_num, b"")] + els, privacy=True)))
+        for a, b in ((b"abcdef", b"xy"), (b"abc", bytes(2)), (bytes(4), b"z"), (b"q" * 32, b""), (b"", b"late")):
+            cases.append("mgmt 0 " + hx(F.mgmt(rng, st, [F.el(0, a), F.el(1, [2, 4]), F.el(0, b), F.el(3, [1])])))
     for st in F.PARSABLE:            # truncation at every byte
         fr = generated(rng, st)
         for k in range(len(fr) + 1):
@@ -79,9 +88,13 @@ def judge(case, impl, model, spec=None):
     if "LEAK" in impl:
         return ("leak", impl[-30:])
     if spec is not None and impl != spec:
+        import re
+        name = "?"
         for p, s in zip(impl.split(" "), spec.split(" ")):
+            m = re.match(r"^([a-z_]+)=", p)
+            if m:
+                name = m.group(1)      # fields contain spaces: the record name is the last token of the form name=
             if p != s:
-                name = p.split("=")[0]
                 kind = "refusal" if (p.endswith("=err")) != (s.endswith("=err")) else "fields"
                 return ("parse:%s:%s" % (name, kind), "parser reports '%s', the frame says '%s'" % (p[:300], s[:300]))
         return ("parse:shape", impl[:100])
